@@ -5,7 +5,20 @@ from . import core
 PROP = "C12"
 DRIVER = "drv_collect"
 LEAN_MODULES = ["MesaModel.Props.C12", "MesaModel.Props.C18Collect"]
-THEOREMS = []
+THEOREMS = [
+    "Mesa.Collect.C12_model_vars_are_snapshots",
+    "Mesa.Collect.C12_stored_values_immune",
+    "Mesa.Collect.C12_collect_records_registered_agents",
+    "Mesa.Collect.C12_agent_records_by_step",
+    "Mesa.Collect.C12_agent_frame_is_records",
+    "Mesa.Collect.C12_model_frame_is_model_vars",
+    "Mesa.Collect.C12_agenttype_records_by_step",
+    "Mesa.Collect.C12_agenttype_rows_are_class_members",
+    "Mesa.Collect.C12_table_rows_aligned",
+    "Mesa.Collect.C18_collect_tablerow_reject_unchanged",
+    "Mesa.Collect.C18_collect_tablerow_rejects_exactly",
+    "Mesa.Collect.C18_collect_tablerow_reject_history",
+]
 COUNTS = {"quick": 2500, "thorough": 60000}
 TRUSTED = [
     "pandas: DataFrame(dict of equal-length lists) and DataFrame.from_records(list of tuples, columns, index) only re-index what they are given (frames are compared as index tuples / column names / values on every run)",
